@@ -1,2 +1,3 @@
 pub mod dag;
 pub mod tree;
+pub mod globref;
